@@ -20,6 +20,11 @@ type AV struct {
 	StFile *File
 	Fields map[int]*AV // set fields by id
 
+	// LeftAtDefault marks the value of a non-optional field that has a
+	// declared default and that a harness must not assign: the value is the
+	// declared default and the emitted constructor has to have put it there.
+	LeftAtDefault bool
+
 	ElemType *Type // list/set element type, map value type (written in ElemFile)
 	KeyType  *Type
 	ElemFile *File
@@ -27,6 +32,14 @@ type AV struct {
 	Keys     []*AV
 	Vals     []*AV
 }
+
+// LeaveDefaults makes GenValue leave some non-optional fields with a declared
+// default untouched (see AV.LeftAtDefault).  Only harnesses that build every
+// struct through its emitted constructor may set it.
+var LeaveDefaults bool
+
+// LeftAtDefaultCount counts the fields GenValue left at their default.
+var LeftAtDefaultCount int
 
 // ResolveKind returns the kind of a type seen from file f, plus the resolved
 // type expression and the file in whose name space it is written.
@@ -142,6 +155,14 @@ func (p *Program) GenValue(rng *rand.Rand, f *File, t *Type, depth int) *AV {
 				}
 				av.Fields[fl.ID] = v
 				continue
+			}
+			if LeaveDefaults && fl.Default != nil && rng.Intn(3) == 0 {
+				if d := p.AVFromLiteral(r.File, fl.Type, fl.Default); d != nil {
+					d.LeftAtDefault = true
+					LeftAtDefaultCount++
+					av.Fields[fl.ID] = d
+					continue
+				}
 			}
 			av.Fields[fl.ID] = p.GenValue(rng, r.File, fl.Type, depth+1)
 		}
